@@ -4,8 +4,6 @@ import (
 	"encoding/json"
 	"io"
 
-	"github.com/lyraproj/pcore/utils"
-
 	"reflect"
 
 	"github.com/lyraproj/issue/issue"
@@ -117,7 +115,7 @@ func (uv *UndefValue) ToKey() px.HashKey {
 }
 
 func (uv *UndefValue) ToString(b io.Writer, s px.FormatContext, g px.RDetect) {
-	utils.WriteString(b, `undef`)
+	px.GetFormat(s.FormatMap(), uv.PType()).ApplyStringFlags(b, `undef`, false)
 }
 
 func (uv *UndefValue) PType() px.Type {
